@@ -108,7 +108,7 @@ def _recorded_pl(raw):
 # ---------------------------------------------------------------------- C01
 class C01:
     id = "C01"
-    quick, thorough = 420, 6000
+    quick, thorough = 1200, 24000
     timeout = 120
     rule = ("case = generated tree (layout x boundary-biased sizes) x piece length form x route (TorrentFile / "
             "CLI create) x progress mode x directory enumeration order; non-trivial when a size is not a multiple "
@@ -176,7 +176,7 @@ def _v2_file_class(size, pl):
 
 class C02:
     id = "C02"
-    quick, thorough = 420, 6000
+    quick, thorough = 1200, 24000
     timeout = 120
     rule = ("case = generated tree x piece length x creator (TorrentFileV2, TorrentAssembler v2/hybrid, "
             "TorrentFileHybrid, CLI --meta-version 2|3) x progress; oracle = two independent BEP 52 formulations; "
@@ -233,7 +233,7 @@ class C02:
 # ---------------------------------------------------------------------- C03
 class C03:
     id = "C03"
-    quick, thorough = 420, 6000
+    quick, thorough = 1200, 24000
     timeout = 120
     rule = ("case = generated tree x piece length x hybrid creator (TorrentFileHybrid, TorrentAssembler('3'), "
             "CLI --meta-version 3); oracle compares info.files / info.length / info.pieces with the file tree and "
@@ -287,7 +287,7 @@ class C03:
 # ---------------------------------------------------------------------- C15
 class C15:
     id = "C15"
-    quick, thorough = 420, 6000
+    quick, thorough = 1200, 24000
     timeout = 120
     rule = ("case = generated tree x piece length x route (TorrentFile(align=True), CLI --align) x progress; "
             "oracle: every payload file starts on a piece boundary, pad length == gap, pad marked, pieces == "
@@ -351,7 +351,7 @@ def mask_creation_date(raw):
 
 class C10:
     id = "C10"
-    quick, thorough = 600, 9000
+    quick, thorough = 1800, 30000
     timeout = 120
     rule = ("case = either one file x piece length fed to HasherV2, HasherHybrid, FileHasher(hybrid=False), "
             "FileHasher(hybrid=True) (compare root, piece_layer, pieces, padding_file pairwise), or one tree + "
